@@ -1,1 +1,112 @@
-/-! # C06 — property theorems (to be filled in) -/
+import JokerVerif.Lemmas.RejectLemmas
+/-!
+# C06 — reported `ln_prior` / `ln_likelihood` stay attached to their own sample
+
+Property theorems only.  The models (`Model/Reject.lean`, `Model/Iter.lean`) compute the columns the way the
+code does — in three index spaces: `ln_likelihood = lls[good]` (accepted positions of the evaluation order),
+`ln_prior = libLnPrior[full]` and rows `= lib[full]` with `full = order[good]` (library rows).  The theorems say
+that these separately-indexed columns always describe ONE list of library records.
+-/
+set_option linter.unusedSectionVars false
+namespace Reject
+
+section Generic
+variable {α ρ : Type} [LT α] [DecidableLT α] [Sub α] [Max α]
+
+/-- **Rejection sampler.**  There is one list of library records `recs = lib[full]`, `full = evalRows[good]`,
+such that the returned nonlinear blocks, the `ln_prior` column and the `ln_likelihood` column are — row by row,
+`n_linear_samples` copies each — the block of `recs[r]`, the `ln_prior` stored with `recs[r]`, and the likelihood
+function applied to the block of `recs[r]`.  Holds with and without shuffling, for every truncation
+(`n_prior_samples`, `max_posterior_samples`) and every `n_linear_samples`. -/
+theorem logprobs_attached {expf : α → α} {llf : ρ → α} {lib : List (LibRow ρ α)} {o : Opts}
+    {idx : Option (List Nat)} {uu : List α} {out : Out ρ α}
+    (h : rejectionSample expf llf lib o idx uu = .ok out) :
+    gather out.evalRows out.good = some out.full ∧
+    ∃ recs, gather lib out.full = some recs ∧
+      out.rows = rep o.nLinear (recs.map (·.nonlin)) ∧
+      out.lnPrior = rep o.nLinear (recs.map (·.lnPrior)) ∧
+      out.lnLike = rep o.nLinear (recs.map (fun r => llf r.nonlin)) ∧
+      out.rows.zip (out.lnPrior.zip out.lnLike) =
+        rep o.nLinear (recs.map (fun r => (r.nonlin, r.lnPrior, llf r.nonlin))) := by
+  obtain ⟨_, _, evRows, hev, _, hasm⟩ := rejectionSample_ok h
+  obtain ⟨h1, _, h3, hfull, recs, hrecs, _, hrows, hlp, hll⟩ := assemble_attached llf hev hasm
+  refine ⟨by rw [h1, h3]; exact hfull, recs, hrecs, hrows, hlp, hll, ?_⟩
+  rw [hrows, hlp, hll, rep_zip_map, ← rep_zip_map (fun r : LibRow ρ α => r.nonlin)]
+
+/-- With `return_all_logprobs` the extra array holds the ln-likelihood of every evaluated prior sample in
+evaluation order: `allLls[t] = llf (lib[evalRows[t]])`, one entry per evaluated row. -/
+theorem all_logprobs_in_eval_order {expf : α → α} {llf : ρ → α} {lib : List (LibRow ρ α)} {o : Opts}
+    {idx : Option (List Nat)} {uu : List α} {out : Out ρ α}
+    (h : rejectionSample expf llf lib o idx uu = .ok out) :
+    gather (lib.map (fun r => llf r.nonlin)) out.evalRows = some out.allLls ∧
+    out.allLls.length = out.evalRows.length := by
+  obtain ⟨_, _, evRows, hev, _, hasm⟩ := rejectionSample_ok h
+  obtain ⟨h1, h2, _⟩ := assemble_attached llf hev hasm
+  have : gather (lib.map (fun r => llf r.nonlin)) out.evalRows = some out.allLls := by
+    rw [h1, h2, gather_map, hev]; rfl
+  exact ⟨this, gather_length this⟩
+
+/-- The logprob columns are columns of scalars (`List α` — a structured row is a type error in the model), one
+scalar per returned row. -/
+theorem logprob_columns_scalar {expf : α → α} {llf : ρ → α} {lib : List (LibRow ρ α)} {o : Opts}
+    {idx : Option (List Nat)} {uu : List α} {out : Out ρ α}
+    (h : rejectionSample expf llf lib o idx uu = .ok out) :
+    out.lnPrior.length = out.rows.length ∧ out.lnLike.length = out.rows.length ∧
+    out.rows.length = out.good.length * o.nLinear := by
+  obtain ⟨hfull, recs, hrecs, hrows, hlp, hll, _⟩ := logprobs_attached h
+  refine ⟨by rw [hlp, hrows]; simp [rep_length], by rw [hll, hrows]; simp [rep_length], ?_⟩
+  rw [hrows, rep_length, List.length_map, gather_length hrecs, gather_length hfull]
+
+end Generic
+end Reject
+
+namespace Iter
+open Reject
+
+section Generic
+variable {α ρ : Type} [LT α] [DecidableLT α] [Sub α] [Max α]
+
+/-- **Iterative sampler**, at every normal exit (enough samples / budget exhausted / policy stops), for every
+growth policy: the same attachment statement, plus the likelihoods accumulated over all rounds are those of
+the evaluated rows in evaluation order. -/
+theorem iter_logprobs_attached {expf : α → α} {nonFinite : α → Bool} {llf : ρ → α} {lib : List (LibRow ρ α)}
+    {c : Cfg} {idx : Option (List Nat)} {grow : Nat → Nat → Nat → Nat → Nat} {uus : List (List α)}
+    {res : Res ρ α} (h : iterativeSample expf nonFinite llf lib c idx grow uus = .ok res) :
+    gather res.out.evalRows res.out.good = some res.out.full ∧
+    gather (lib.map (fun r => llf r.nonlin)) res.out.evalRows = some res.out.allLls ∧
+    ∃ recs, gather lib res.out.full = some recs ∧
+      res.out.rows = rep c.nLinear (recs.map (·.nonlin)) ∧
+      res.out.lnPrior = rep c.nLinear (recs.map (·.lnPrior)) ∧
+      res.out.lnLike = rep c.nLinear (recs.map (fun r => llf r.nonlin)) ∧
+      res.out.rows.zip (res.out.lnPrior.zip res.out.lnLike) =
+        rep c.nLinear (recs.map (fun r => (r.nonlin, r.lnPrior, llf r.nonlin))) := by
+  obtain ⟨_, _, _, _, _, _, h7, _, _, _, _, _, h13, recs, a5, a6, a7, a8⟩ := iterativeSample_facts h
+  refine ⟨h13, h7, recs, a5, a6, a7, a8, ?_⟩
+  rw [a6, a7, a8, rep_zip_map, ← rep_zip_map (fun r : LibRow ρ α => r.nonlin)]
+
+theorem iter_logprob_columns_scalar {expf : α → α} {nonFinite : α → Bool} {llf : ρ → α}
+    {lib : List (LibRow ρ α)} {c : Cfg} {idx : Option (List Nat)} {grow : Nat → Nat → Nat → Nat → Nat}
+    {uus : List (List α)} {res : Res ρ α}
+    (h : iterativeSample expf nonFinite llf lib c idx grow uus = .ok res) :
+    res.out.lnPrior.length = res.out.rows.length ∧ res.out.lnLike.length = res.out.rows.length := by
+  obtain ⟨_, _, recs, _, hrows, hlp, hll, _⟩ := iter_logprobs_attached h
+  exact ⟨by rw [hlp, hrows]; simp [rep_length], by rw [hll, hrows]; simp [rep_length]⟩
+
+end Generic
+end Iter
+
+/-! ### non-vacuity: shuffled order + truncation, distinct recognisable `ln_prior` values (ℤ, thresholds ×10) -/
+namespace Reject
+section Examples
+
+def c06Exp (x : ℤ) : ℤ := if x = 0 then 10 else if x = -1 then 5 else 1
+def c06Lib : List (LibRow String ℤ) := [⟨"a", 105⟩, ⟨"b", 106⟩, ⟨"c", 107⟩, ⟨"d", 108⟩]
+def c06LL : String → ℤ := fun s => if s = "a" then -3 else if s = "b" then -1 else if s = "c" then -2 else -4
+
+example : (match rejectionSample c06Exp c06LL c06Lib ⟨none, some 2, 1⟩ (some [3, 2, 0, 1]) [0, 7, 0, 9] with
+    | .ok out => (out.good, out.full, out.rows.zip (out.lnPrior.zip out.lnLike), out.allLls)
+    | .error _ => ([], [], [], [])) =
+    ([0, 2], [3, 0], [("d", 108, -4), ("a", 105, -3)], [-4, -2, -3, -1]) := by decide
+
+end Examples
+end Reject
